@@ -1183,6 +1183,8 @@ func c20Replay(c *lib.Ctx) {
 		c20ReplayStash(c, req, rec)
 	case strings.HasPrefix(req, "hist cfg "):
 		c20ReplayCfg(c, req, rec)
+	case strings.HasPrefix(req, "hist cfgw "):
+		c20ReplayCfgDirs(c, req, rec)
 	case strings.HasPrefix(req, "hist ed "):
 		c20ReplayEditor(c, req)
 	default:
@@ -1366,6 +1368,9 @@ func runC20(c *lib.Ctx) {
 
 	nStash, nStashAgree := c20RunStash(c)
 	nCfg, nCfgAgree := c20RunCfg(c)
+	nCw, nCwAgree := c20RunCfgDirs(c)
+	nCfg, nCfgAgree = nCfg+nCw, nCfgAgree+nCwAgree
+	c.Ev.Coverage["settings_cases_several_directories_in_one_process"] = nCw
 	nEd, nEdAgree := c20RunEditor(c)
 	c20Flush(c)
 	c.Ev.Coverage["editor_cases"] = nEd
